@@ -22,6 +22,31 @@ use system::System;
 pub type ProcResult = Option<Result<(Value, Vec<Vec<u8>>), quiver_core::error::Error>>;
 
 /// Results of every process known to any worker (workers must be idle).
+/// Persistent (session) processes that hold a successful result: they sleep and can be resumed,
+/// so for resource ownership they are alive, not terminated.
+pub fn sleeping_pids(sys: &mut System) -> std::collections::BTreeSet<ProcessId> {
+    let mut out = std::collections::BTreeSet::new();
+    for i in 0..sys.workers.len() {
+        if sys.workers[i].dead || sys.workers[i].mid_step.is_some() {
+            continue;
+        }
+        let part: Vec<ProcessId> = sys.with_worker(i, |w| {
+            let ex = w.verif_executor();
+            ex.verif_sched_view()
+                .pids
+                .iter()
+                .filter(|pid| {
+                    let p = ex.get_process(**pid).unwrap();
+                    p.persistent && matches!(p.result, Some(Ok(_)))
+                })
+                .copied()
+                .collect()
+        });
+        out.extend(part);
+    }
+    out
+}
+
 pub fn process_results(sys: &mut System) -> BTreeMap<ProcessId, ProcResult> {
     let mut out = BTreeMap::new();
     for i in 0..sys.workers.len() {
